@@ -341,6 +341,41 @@ where
     )
 }
 
+/// integer emissions whose value sits at the edge of an encoding width (+-2^7, 2^8, 2^15, 2^16, 2^23,
+/// 2^24, 2^31, 2^32 and their neighbours), each followed by further argument-carrying opcodes so
+/// that a wrong length or count shows in what decodes next
+pub fn int_edge_block<F>(n: usize, seed: u64, check: &F) -> Acc
+where
+    F: Fn(&Config, &CaseResult, &mut Acc) + Sync,
+{
+    const INTS: [u8; 7] = [b'I', b'J', b'K', b'M', b'L', 0x8a, 0x8b];
+    par_run(
+        n,
+        Acc::new,
+        |i, acc| {
+            let proto = (5 - i % 6) as u8;
+            let base = Config {
+                mutators: if i % 4 == 3 { vec![Mk::Boundary, Mk::Offbyone] } else { vec![] },
+                rate: 0.5,
+                ..Config::default_for(proto, Entropy::Bytes(vec![]))
+            };
+            let mut rng = Rng::new(mix(seed ^ 0x1E06, i as u64));
+            let cfg = steer(&base, 10, 3, mix(seed ^ 0x1E07, i as u64), |_d, p| {
+                let offered: Vec<usize> = (0..p.valid.len()).filter(|k| INTS.contains(&p.valid[*k])).collect();
+                if offered.is_empty() {
+                    0
+                } else {
+                    offered[rng.below(offered.len() as u64) as usize]
+                }
+            });
+            let res = run_case(&cfg, Some(trace_cfg()));
+            check(&cfg, &res, acc);
+            acc.count("integer_edge_value_cases", 1);
+        },
+        |a, b| a.merge(b),
+    )
+}
+
 /// long pickles (more than 256 memo entries; protocols 1-5 and 0) through `check`
 pub fn long_block<F>(n: usize, seed: u64, trace: verif::Config, check: &F) -> Acc
 where
@@ -719,6 +754,8 @@ pub fn c17(thorough: bool, seed: u64) -> CheckOutput {
     acc.merge(lb);
     let deep = deep_block(if thorough { 1200 } else { 120 }, seed, tr, &[if thorough { 2500 } else { 1500 }], &check_c17);
     acc.merge(deep);
+    let ie = int_edge_block(if thorough { 30_000 } else { 3_000 }, seed, &check_c17);
+    acc.merge(ie);
     if acc.get("steps_compared") < 10_000 {
         acc.inconclusive.push("too few step snapshots compared (hook stream empty?)".into());
     }
@@ -1255,6 +1292,57 @@ pub fn c12(thorough: bool, seed: u64) -> CheckOutput {
                     message: msg.clone(),
                     replay: json!({"kind": "c12-cli", "property": "C12", "flags": ["--seed", "S"], "mode": "single-file, protocol derived from the seed", "opcode": key, "message": msg}),
                 });
+            }
+        }
+    }
+    // ... and on a generator that was built for, and has already generated under, a LOWER protocol
+    // before its public state.version was raised: one long-lived object per protocol, seeds through
+    // the public field. Half as many seeds as the main block (the rarest pair still about 12 times).
+    {
+        let n_re = n_per / 2;
+        let re: BTreeMap<(u8, &'static str), u64> = par_run(
+            5 * 16,
+            BTreeMap::new,
+            |i, m: &mut BTreeMap<(u8, &'static str), u64>| {
+                let proto = 1 + (i % 5) as u8;
+                let chunk = i / 5;
+                let lower = ((proto as usize * 7 + chunk) % proto as usize) as u8;
+                let mut g = Config::default_for(lower, Entropy::Seed(chunk as u64)).build();
+                let _ = g.generate();
+                g.state.version = pickle_fuzzer::Version::try_from(proto as usize).expect("proto");
+                for s in (chunk..n_re).step_by(16) {
+                    g.seed = Some(s as u64);
+                    if let Ok(b) = g.generate() {
+                        for ins in crate::lexer::lex_lenient(&b) {
+                            *m.entry((proto, ins.op.name)).or_insert(0) += 1;
+                        }
+                    }
+                }
+            },
+            |a, b| {
+                for (k, v) in b {
+                    *a.entry(k).or_insert(0) += v;
+                }
+            },
+        );
+        acc.count("retargeted_generator_census_generations", (5 * n_re) as u64);
+        for proto in 1..6u8 {
+            for row in OPTABLE {
+                if row.proto > proto || matches!(row.name, "EXT1" | "EXT2" | "EXT4" | "NEXT_BUFFER" | "READONLY_BUFFER") {
+                    continue;
+                }
+                if re.get(&(proto, row.name)).copied().unwrap_or(0) == 0 {
+                    let msg = format!(
+                        "opcode {} never occurs for protocol {} over {} seeds on a generator that first generated under a lower protocol and was then retargeted through state.version, although it occurs on fresh generators",
+                        row.name, proto, n_re
+                    );
+                    acc.violate(Violation {
+                        property: "C12".into(),
+                        signature: format!("C12:retargeted_dead:{}:P{}", row.name, proto),
+                        message: msg.clone(),
+                        replay: json!({"kind": "c12", "property": "C12", "proto": proto, "opcode": row.name, "history": "Generator::new(lower), generate, state.version = P, seeds via the seed field", "message": msg}),
+                    });
+                }
             }
         }
     }
